@@ -228,6 +228,70 @@ Proof.
       apply derivable_pt_lim_minus; [apply Ader; exact Hi|apply derivable_pt_lim_const].
 Qed.
 
+(* ---------- weighted inner products  <x, y>_w = sum_i w_i x_i y_i ---------- *)
+Lemma wdot_as_dot (w x y : Rvec) : wdot w x y = dot (vmul x w) y.
+Proof.
+  revert x y; induction w as [|c w IH]; intros [|a x] [|b y]; try reflexivity.
+  rewrite wdot_cons. unfold vmul; cbn [vmap2]. rewrite dot_cons'. fold (vmul x w). rewrite IH. numR. ring.
+Qed.
+Lemma wdot_as_dot_r (w x y : Rvec) : wdot w x y = dot x (vmul w y).
+Proof.
+  revert x y; induction w as [|c w IH]; intros [|a x] [|b y]; try reflexivity.
+  rewrite wdot_cons. unfold vmul; cbn [vmap2]. rewrite dot_cons'. fold (vmul w y). rewrite IH. numR. ring.
+Qed.
+Lemma wdot_map_div (w d x : Rvec) c : wdot w d (map (fun a => a / c) x) = wdot w d x / c.
+Proof.
+  revert d x; induction w as [|u w IH]; intros [|a d] [|b x]; cbn [map]; try (cbn; unfold Rdiv; ring).
+  rewrite !wdot_cons, IH. numR. unfold Rdiv. ring.
+Qed.
+Lemma sumf_vadd (a b : Rvec) : length a = length b -> sumf (vadd a b) = sumf a + sumf b.
+Proof.
+  revert b; induction a as [|u a IH]; intros [|v b] Hl; cbn in Hl; try lia.
+  - cbn. numR. ring.
+  - unfold vadd in *. cbn [vmap2 sumf]. numR. rewrite IH by lia. ring.
+Qed.
+
+Lemma dpl_dot2 n ca cb a b da db :
+  curve n ca a da -> curve n cb b db ->
+  derivable_pt_lim (fun t => dot (ca t) (cb t)) 0 (dot da b + dot db a).
+Proof.
+  intros Ha Hb. pose proof (curve_mul _ _ _ _ _ _ _ Ha Hb) as (M0 & Md & Ml & Mder).
+  pose proof Ha as (_ & Had & _). pose proof Hb as (_ & Hbd & _).
+  pose proof (curve_len_x _ _ _ _ Ha) as Hal. pose proof (curve_len_x _ _ _ _ Hb) as Hbl.
+  eapply dpl_eq; [|unfold dot; apply (dpl_sumf n); [exact Ml|exact Md|exact Mder]].
+  rewrite sumf_vadd; [reflexivity|]. unfold vmul. rewrite !(vmap2_len _ _ _ n); auto.
+Qed.
+
+Lemma curve_wnorm n w g x d :
+  curve n g x d -> length w = n -> 0 < wdot w x x ->
+  curve 1 (fun t => [sqrt (wdot w (g t) (g t))]) [sqrt (wdot w x x)]
+          [wdot w d (map (fun a => a / sqrt (wdot w x x)) x)].
+Proof.
+  intros Hc Hw Hpos.
+  pose proof (curve_mul_const _ _ _ _ w Hc Hw) as Hcw.
+  pose proof (dpl_dot2 _ _ _ _ _ _ _ Hcw Hc) as Hd2.
+  destruct Hc as (A0 & Ad & Al & Ader).
+  repeat split.
+  - rewrite A0; reflexivity.
+  - intros [|i] Hi; [|lia]. cbn [nth].
+    rewrite wdot_map_div.
+    apply (dpl_eq _ _ (/ (2 * sqrt (wdot w x x)) * (dot (vmul d w) x + dot d (vmul x w)))).
+    { rewrite <- !wdot_as_dot, (dot_comm d), <- wdot_as_dot, (wdot_comm w x d). field.
+      intros Hs. apply sqrt_eq_0 in Hs; lra. }
+    apply (dpl_ext (fun t => sqrt (dot (vmul (g t) w) (g t)))).
+    { intros t. rewrite wdot_as_dot. reflexivity. }
+    apply (derivable_pt_lim_comp (fun t => dot (vmul (g t) w) (g t)) sqrt).
+    + exact Hd2.
+    + cbn. rewrite A0, <- wdot_as_dot. apply derivable_pt_lim_sqrt. exact Hpos.
+Qed.
+
+Lemma wdot_self_nonneg (w x : Rvec) : (forall i, (i < length w)%nat -> 0 <= nth i w 0) -> 0 <= wdot w x x.
+Proof.
+  revert x; induction w as [|c w IH]; intros [|a x] Hw; try (cbn; lra).
+  rewrite wdot_cons. assert (0 <= c) by (apply (Hw 0%nat); cbn; lia).
+  assert (0 <= wdot w x x) by (apply IH; intros i Hi; apply (Hw (S i)); cbn; lia). nra.
+Qed.
+
 Lemma sqrt_neq0_pos a : 0 <= a -> sqrt a <> 0 -> 0 < a.
 Proof.
   intros H0 Hs. destruct (Rle_lt_or_eq_dec 0 a H0) as [|<-]; [assumption|].
